@@ -42,6 +42,8 @@ type Desc struct {
 	Peers [][2]int `json:"peers"` // (1-based AS entry index, peer ingress ifid)
 	Next  int      `json:"next"`  // Next IA of the last AS entry (0 for terminated segments)
 	Bad   []int    `json:"bad"`   // 1-based indices of AS entries signed with the WRONG key
+	// PeerIA is the peer ISD-AS of all peer entries (default 99).
+	PeerIA int `json:"peerIA"`
 	// filled by Build
 	ID  []int `json:"id"`  // hex digits of Segment.ID()
 	Exp int   `json:"exp"` // TS + TTL*Unit  (seconds after Base)
@@ -125,6 +127,7 @@ func Build(d *Desc) *seg.PathSegment {
 	}
 	n := len(d.Hops)
 	peerHoldsMax := len(d.Peers) > 0 && d.SV%2 == 1
+	peerIA := peerIAOf(*d)
 	first := true
 	for i, h := range d.Hops {
 		exp := uint8(1)
@@ -156,7 +159,7 @@ func Build(d *Desc) *seg.PathSegment {
 					first = false
 				}
 				e.PeerEntries = append(e.PeerEntries, seg.PeerEntry{
-					Peer: IA(99), PeerInterface: 77, PeerMTU: 1400,
+					Peer: IA(peerIA), PeerInterface: 77, PeerMTU: 1400,
 					HopField: seg.HopField{ConsIngress: uint16(p[1]), ConsEgress: uint16(h.Eg), ExpTime: pexp,
 						MAC: [path.MacLen]byte{9, 9, 9, byte(p[1]), 5, 6}},
 				})
@@ -243,6 +246,13 @@ func (p *Pool) Index(ps *seg.PathSegment) int {
 	return 0
 }
 
+func peerIAOf(d Desc) int {
+	if d.PeerIA != 0 {
+		return d.PeerIA
+	}
+	return 99
+}
+
 // JSON is the pool as logged in reset records (the trace specification's constants).
 func (p *Pool) JSON() []vt.M {
 	out := []vt.M{}
@@ -258,7 +268,7 @@ func (p *Pool) JSON() []vt.M {
 		bad := []int{}
 		bad = append(bad, d.Bad...)
 		out = append(out, vt.M{"id": d.ID, "ts": d.TS, "sv": d.SV, "exp": d.Exp, "hops": hops,
-			"peers": peers, "bad": bad})
+			"peers": peers, "bad": bad, "pia": peerIAOf(d)})
 	}
 	return out
 }
